@@ -58,7 +58,7 @@ class C07(Property):
         etc, geom, grid = T.build_time_course(spec)
         frames = spec["frames"]
         s = spec["site_spacing"]
-        tol = 1e-9 * s
+        tol = 0.0 if spec.get("exact") else 1e-9 * s  # exact-arithmetic histories (exactly touching droplets) are judged without tolerance
         if any(T.frame_has_overlap(f, geom, tol) for f in frames):
             ctx.skip("within-frame-overlap")
             return
@@ -127,7 +127,7 @@ class C07(Property):
                 dist = np.zeros((len(prev), len(cur)))
             if method == "overlap":
                 rsum = np.add.outer(np.array([p["radius"] for p in prev], float), np.array([q["radius"] for q in cur], float)).reshape(len(prev), len(cur))
-                knife = bool(np.any(np.abs(dist - rsum) <= tol))
+                knife = bool(np.any(np.abs(dist - rsum) <= tol)) and not spec.get("exact")
                 rel = {(int(i), int(j)) for i, j in zip(*np.nonzero(dist < rsum))}
                 for i, j in lk:
                     ctx.require(dist[i, j] < rsum[i, j] + tol, "overlap:link-without-overlap", f"frame {k - 1}->{k}: droplets {i}->{j} linked, distance {dist[i, j]} >= {rsum[i, j]}")
